@@ -281,7 +281,10 @@ def tensor_attr(interp: Any, t: SymTensor, name: str) -> Any:
     meth = _TENSOR_METHODS.get(name)
     if meth is not None:
         return Builtin("Tensor." + name, lambda it, a, k, _m=meth: _m(it, [t] + list(a), k))
-    if name in ("mup_type", "mup_scaling_depth", "__deepcopy__", "__reduce_ex__"):
+    if name == "_version":
+        return t.storage.__dict__.get("version", 0)
+    if name in ("mup_type", "mup_scaling_depth", "__deepcopy__", "__reduce_ex__") or (name.startswith("_") and not name.startswith("__")):
+        # python-level attributes that were never set on this tensor object
         raise PyRaise("AttributeError", f"'Tensor' object has no attribute '{name}'")
     raise OutOfReach(f"Tensor.{name}")
 
@@ -639,6 +642,28 @@ def t_tensor(interp: Any, args: List[Any], kwargs: Dict[str, Any]) -> Any:
     raise OutOfReach("torch.tensor of non-scalar")
 
 
+class BoolScalar:
+    """a 0-dim bool tensor with a known (symbolic) truth value"""
+
+    def __init__(self, b: Any):
+        self.b = b
+
+    def pyvc_getattr(self, interp: Any, name: str) -> Any:
+        if name == "item":
+            return Builtin("item", lambda it, a, k: self.b)
+        raise PyRaise("AttributeError", name)
+
+
+def t_isclose(interp: Any, args: List[Any], kwargs: Dict[str, Any]) -> Any:
+    """ASSUMED torch.isclose(a, b, rtol=1e-05, atol=1e-08): |a - b| <= atol + rtol * |b| (finite values)"""
+    a, b, rtol, atol, _ = normalise("isclose", [("input", REQ), ("other", REQ), ("rtol", Fraction("1e-05")), ("atol", Fraction("1e-08")), ("equal_nan", False)], args, kwargs)
+    if not (_scalar_tensor(a) and _scalar_tensor(b)):
+        raise OutOfReach("torch.isclose on non-scalar tensors")
+    za, zb = _const_of(a).z, _const_of(b).z
+    ab = lambda x: z3.If(x >= 0, x, -x)  # noqa: E731
+    return BoolScalar(mk_bool(ab(za - zb) <= zreal(atol) + zreal(rtol) * ab(zb)))
+
+
 def t_ones(interp: Any, args: List[Any], kwargs: Dict[str, Any]) -> Any:
     sh = args[0] if len(args) == 1 else tuple(args)
     if isinstance(sh, (int, SV)):
@@ -797,6 +822,10 @@ def externals(interp: Any, name: str) -> Optional[ModuleVal]:
                 "prod": B("math.prod", lambda it, a, k: it.builtins["__prod__"].fn(it, a, k)),
                 "pi": pi_value(ctx),
                 "isclose": B("math.isclose", m_isclose),
+                "log2": B("math.log2", m_log2),
+                "floor": B("math.floor", lambda it, a, k: a[0] // 1 if isinstance(a[0], (int, Fraction)) else _oor("floor")),
+                "ceil": B("math.ceil", lambda it, a, k: -((-a[0]) // 1) if isinstance(a[0], (int, Fraction)) else _oor("ceil")),
+                "inf": __import__("pyvc.builtins_model", fromlist=["Infinity"]).Infinity(True),
             },
         )
     if name == "sys":
@@ -851,6 +880,7 @@ def externals(interp: Any, name: str) -> Optional[ModuleVal]:
             "broadcast_shapes": B("torch.broadcast_shapes", t_broadcast_shapes),
             "tensor": B("torch.tensor", t_tensor),
             "ones": B("torch.ones", t_ones),
+            "isclose": B("torch.isclose", t_isclose),
             "no_grad": B("torch.no_grad", lambda it, a, k: NoGrad()),
             "dtype": TypeTok("dtype"),
             "Size": TypeTok("Size"),
@@ -967,6 +997,20 @@ def _as_float(x: Any) -> Any:
     if isinstance(x, SV) and x.kind == "int":
         return SV(z3.ToReal(x.z), "real")
     return x
+
+
+def _oor(what: str) -> Any:
+    raise OutOfReach(f"math.{what} of a symbolic number")
+
+
+def m_log2(interp: Any, args: List[Any], kwargs: Dict[str, Any]) -> Any:
+    x = args[0]
+    if isinstance(x, (int, Fraction)) and x > 0:
+        fr = Fraction(x)
+        n, d = fr.numerator, fr.denominator
+        if n & (n - 1) == 0 and d & (d - 1) == 0:
+            return Fraction(n.bit_length() - d.bit_length())
+    raise OutOfReach("math.log2 of a value that is not a concrete power of two")
 
 
 def m_isclose(interp: Any, args: List[Any], kwargs: Dict[str, Any]) -> Any:
